@@ -50,6 +50,11 @@ CASES = [
     ('modifiers_method', [('obj.m', 'call'), ('obj2.m', 'call')]),
     ('modifiers_method', [('obj.m', 'sigtools.signature'), ('obj.m', 'drop-held')]),
     ('modifiers_method', [('obj.m', 'call'), ('obj.m', 'drop-held')]),
+    ('forger_implicit_classmethod', [('K.__class_getitem__', 'inspect.signature'), ('K.__class_getitem__', 'inspect.signature')]),
+    ('forger_implicit_classmethod', [('K.__class_getitem__', 'sigtools.signature'), ('K.__class_getitem__', 'inspect.signature')]),
+    ('wraps_factory', [('w1', 'sigtools.signature'), ('w2', 'sigtools.signature')]),
+    ('wraps_factory', [('w1', 'sigtools.signature'), ('w2', 'inspect.signature')]),
+    ('as_forged_class', [('K', 'inspect.signature'), ('obj', 'inspect.signature')]),
     ('modifiers_wraps', [('w1', 'sigtools.signature'), ('w1', 'inspect.signature')]),
     ('combination', [('w1', 'sigtools.signature'), ('w1', 'inspect.signature')]),
     ('partial_wraps', [('w1', 'sigtools.signature'), ('w0', 'inspect.signature')]),
@@ -229,7 +234,7 @@ def explore(arg):
             ps = allp
         else:
             # the first points are the attribute access itself (descriptor caches), always taken
-            ps = sorted(set(evenly(allp, 90, seed)) | set(evenly(sorted(win), 60, seed)) | set(allp[:40]))
+            ps = sorted(set(evenly(allp, 90, seed)) | set(evenly(sorted(win), 60, seed)) | set(allp[:120]))
         for p in ps:
             if p % nchunks == chunk:
                 run_schedule(name, threads, {(0, p): 1}, expected, st, 'one-preemption')
